@@ -40,6 +40,10 @@ CHECKS = {
          "Generated assignments of the 24 documented keys go through the real YAML loader and are compared key by key in TLC; argument vectors of length 0..3 are run against the real binary and judged by Cli!Mode (banner, usage, N2 traffic); complete runs with random configurations are judged on the wire by the specification's AMF (every configured value that reaches the N2 interface, and the ConnectToAmf arguments via hook H1)."),
  "C20": ("TLC enumerates every interleaving of the gate-point segments (Conc.tla: atomic spec vs shared / locked / local implementation models); schedules replayed into the real code through gate hooks; stress under the race detector judged by TLC (TraceConc)",
          "Conc.tla is model-checked (the shared-state model violates ResultsSequential, the locked and local ones satisfy it); every interleaving TLC enumerates is replayed deterministically through hook H4 with each result compared to the same call executed alone (and to NasAlg); free-running stress over all codec / security families with 2, 8, 64 goroutines under -race; any race report is an event the trace spec rejects."),
+ "C08": ("TLC-generated encodings from the TS 24.501 tables (Nas24501.tla: canonical and permuted IE order) replayed into the library codec; decoded content, re-encoding and decode(encode(m)) judged by TLC (TraceNas)",
+         "For every message type TLC's table-driven encoder produces byte strings for optional-IE subsets, IE lengths at the capacity limits and permuted IE order; the library must decode them to the same abstract content, re-encode the canonical octets, be stable under decode(encode(m)), and report unknown message types as errors."),
+ "C09": ("TLA+ transcription of the TS 24.501 clause 8.2/8.3 tables (Nas24501.tla) as independent encoder and parser; trace validation with TLC",
+         "The library must decode the standard's encoding of each of the 44 message types (message type octet, mandatory order/widths, IEI, format and length width of every optional IE) to the intended values; the plain messages the emulator's constructors build are parsed by the independent parser Nas24501!NasDecode to the intended field values; the downlink messages of the TLC AMF (C01/C02) are built by the same tables and consumed by the real emulator."),
 }
 NA = {}
 def main():
